@@ -237,7 +237,9 @@ Definition template (o : op) : tmpl op :=
   | I6ProcessRA =>
       simple [TRd FI6HuntList; TRd FI6Closed; TRd FI6CloseChan; TWr FI6CloseChan; TCloseCh CI6Close;
               TRd FI6Repeat; TWr FI6Repeat;
-              TAcq LIcmp6 MW; TRd FI6Routers; TWr FI6Routers; TWr FI6Router; TRel LIcmp6]
+              TAcq LIcmp6 MW; TRd FI6Routers; TWr FI6Routers; TWr FI6Router; TRel LIcmp6;
+              (* icmp6.go: the Debug log line after Unlock reads router.Options (found by the AST pass) *)
+              TRd FI6Routers]
   (* icmp6spoof.go:16 *)
   | I6StartHunt => simple [TAcq LIcmp6 MW; TRd FI6HuntList; TWr FI6HuntList; TRel LIcmp6; TSpawn I6SpoofLoop]
   (* icmp6spoof.go:40 *)
